@@ -1,31 +1,36 @@
-"""C01 — no byte stream can crash a terminal emulation (DESIGN.md section 7 C01, Appendix A). PARTIAL."""
+"""C01 — no byte stream can crash a terminal emulation (DESIGN.md section 7 C01, Appendix A).
+PARTIAL only in the sense that one class stays a known finding (unbounded macro recursion) and that time/memory are C03's."""
 import os, re, base64, struct
 from props import termgen as tg
 
 ID = 'C01'
 GENERATORS = ['gen_font']     # Model/AnsiTok.v loads `CTerm:Font:` strings with C17's Model/Font.v, which needs Gen/FontConsts.v
-COQ_TARGETS = ['Props/C01.vo', 'Run/RunC09.vo']
+COQ_TARGETS = ['Props/C01.vo', 'Run/RunC09.vo', 'Run/RunC01.vo']
 PROPS_MODULE = 'Props.C01'
-THEOREMS = ['c01_standalone', 'c01_ansi_char_partial', 'c01_stream_partial', 'c01_ansi_stream_partial', 'core_ops_never_panic']
+THEOREMS = ['c01_standalone', 'c01_ansi_char_partial', 'c01_stream_partial', 'c01_ansi_stream_partial', 'core_ops_never_panic',
+            'c01_ansi_char', 'c01_wrappers', 'c01_wrappers_no_panic', 'c01_wrappers_state', 'c01_petscii', 'c01_no_emulation_panics', 'macro_bound_is_only_a_bound']
 SWEEP_LEMMAS = []
 TRUSTED = ['Coq 8.16.1 kernel + vm_compute; no axioms (Print Assumptions: closed)',
-           'hand-written models Model/TermCore.v, AnsiTok.v, Emu.v (shared with C09), tied to the Rust source by differential runs: outcome class of every character, final geometry',
+           'hand-written models Model/TermCore.v, AnsiTok.v, Emu.v (shared with C09) and Model/Petscii.v, tied to the Rust source by differential runs: outcome class of every character, final geometry; '
+           'for states after a resize, macro replay and PETSCII the full C09 observation (18 values) after EVERY character',
            'Model/Font.v (C17: load_custom_font, BitFont::from_bytes) reused for the CTerm:Font DCS; Model/Base64.v = decoder of the external crate base64 0.22 (STANDARD), tied by stage C on valid / truncated / badly padded / non-canonical / non-alphabet payloads',
            'harness/src/c01.rs + the worker protocol of vlib/driver.py (panic location, abort / stack overflow / timeout / OOM classification)']
-UNMODELLED = ['PETSCII (no Coq model): stage S only',
-              'theorem level: states reached after a text-area resize (CSI 8;h;w t) and characters processed while macros are stored (macro replay) are covered by stages C and S only; '
-              'the per-character theorem is proved for every parser state but assumes the C09 invariant and an empty macro table',
-              'unbounded macro recursion: known class (model: Diverge beyond MACRO_FUEL)',
+UNMODELLED = ['unbounded macro recursion: known class (model: Diverge beyond MACRO_FUEL); the theorems show it is the ONLY way a stream can fail to end in a state, and only while a macro is stored',
+              'a macro nesting deeper than MACRO_FUEL = 32 that terminates in the real code is Diverge in the model (c01_ansi_char holds for every nesting bound, the stream theorems use 32)',
               'sixel decoding (runs in a thread, C14) and Buffer::update_sixel_threads, OSC 4 palette regex (accepted without evaluation), DECRQCRA checksum value, SendString/PlayMusic payloads, '
               'font tables (of a font loaded by DCS only the slot number is kept; the built-in slots 0..=42 are a constant of the model)',
+              'PETSCII: font page of a cell, foreground colour, underline_mode / c_shift (written, never read) are outside the cell projection (code, background)',
+              'the application-side reaction to CallbackAction::ResizeTerminal (the parser only changes TerminalState.size; the harness, like the model, leaves Buffer / Layer size alone)',
               'time and memory (C03): loop counts are not bounded by the theorems; the generators keep repeat counts of REP/SU/SD/IL/DL/ICH/DCH/SL/SR/CVT/CBT/CUU small']
 ASSUMPTIONS = ['row counters stay below 2^31 (see C09)', 'bytes are fed as `b as char`', 'MACRO_FUEL = 32 bounds the modelled macro nesting']
 RULE = ('character-level streams: (1) token streams over the C09 alphabet plus resize, DCS (text/hex macro definition, invocation, nested and self invocation, sixel hand-off, '
         'CTerm:Font strings with PSF1/PSF2/raw fonts and perturbed base64, unknown), font selection of loaded / empty slots, DECFRA with scalar and non-scalar fill characters, OSC 4/8 (open/close/unbalanced), APS, music strings (all seven MusicStates, overflowing lengths) for every music option; (2) malformed streams of raw bytes biased to the bytes '
         'that drive the state machines, with huge numbers; all ten emulations, sizes 1..=132 x 1..=60; the ledger inputs as regression cases. Stage C compares per stream the number of '
         'actions, of error values, the index of the first error and the final geometry (or the panic site class). Stage S: any panic/abort/stack overflow/timeout/OOM of the worker is a failure '
-        'with signature C01-<class>:<function> (panic location mapped to the enclosing fn). non-trivial = stream produced at least one error value or moved the cursor')
-MODEL_IMPORTS = 'From IE Require Import Run.RunC09.\nLocal Open Scope Z_scope.'
+        'with signature C01-<class>:<function> (panic location mapped to the enclosing fn). Extension area (per-character observation): (3) set-up + resize to a smaller / larger / extreme size + tokens of the whole alphabet, '
+        '(4) hex / text macros whose bodies resize, move, edit, define and invoke lower macros (bounded nesting; sometimes themselves: both sides must report the overflow), invoked from the stream, inside a DCS, and by the Avatar repeat, '
+        'through all five ANSI-based emulations, (5) PETSCII byte streams incl. every byte after reverse-on and every byte after ESC. non-trivial = stream produced at least one error value or moved the cursor')
+MODEL_IMPORTS = 'From IE Require Import Run.RunC09 Run.RunC01.\nLocal Open Scope Z_scope.'
 E = tg.E
 
 def zl(b):
@@ -94,7 +99,7 @@ def extra_tokens(music):
          ('DCS-macro-clr', E + b'P4;1;0!zX' + E + b'\\'), ('DCS-macro-p3', E + b'P4;0;7!zX' + E + b'\\'), ('DCS-nonum', E + b'P!zX' + E + b'\\'),
          ('DCS-macro-csi', E + b'P5;0;1!z1B5B3243' + E + b'\\'), ('DCS-macro-nest', E + b'P6;0;1!z1B5B352A7A' + E + b'\\'),
          ('INV1', E + b'[1*z'), ('INV2', E + b'[2*z'), ('INV5', E + b'[5*z'), ('INV6', E + b'[6*z'), ('INV9', E + b'[9*z'),
-         ('DCS-inv-inside', E + b'P7;0;0!zq' + E + b'[2*zr' + E + b'\\'), ('DCS-bad-inside', E + b'P' + E + b'[x' + E + b'\\'), ('DCS-esc', E + b'P' + E + b'Q' + E + b'\\'),
+         ('DCS-inv-inside', E + b'P7;0;0!zq' + E + b'[2*zr' + E + b'\\'), ('DCS-inv-nonum', E + b'P' + E + b'[*z' + E + b'\\'), ('DCS-inv-star2', E + b'P' + E + b'[1**z' + E + b'\\'), ('DCS-bad-inside', E + b'P' + E + b'[x' + E + b'\\'), ('DCS-esc', E + b'P' + E + b'Q' + E + b'\\'),
          ('DCS-sixel', E + b'Pq#0;2;0;0;0~-~' + E + b'\\'), ('DCS-sixel-bad', E + b'P0;1q"1;1;x' + E + b'\\'), ('DCS-unknown', E + b'Pzz' + E + b'\\'), ('DCS-open', E + b'P12'),
          ('OSC8-open', E + b']8;;http://x' + E + b'\\'), ('OSC8-close', E + b']8;;' + E + b'\\'), ('OSC4', E + b']4;1;rgb:aa/bb/cc' + E + b'\\'), ('OSC4-noidx', E + b']4;;rgb:00/00/00' + E + b'\\'),
          ('OSC4-big', E + b']4;999;rgb:00/00/00' + E + b'\\'), ('OSC-unknown', E + b']9;x' + E + b'\\'), ('OSC-empty', E + b']' + E + b'\\'), ('OSC-esc', E + b']8' + E + b'x'),
@@ -124,6 +129,91 @@ def gen_stream(rng, emu, w, h, music):
     b, names = tg.random_stream(rng, emu, w, h, rng.choice([3, 10, 40, 150]), toks=toks)
     if rng.random() < 0.3: b = b'\n' * (h + rng.choice([1, 30])) + b
     return b[:4096], names
+
+
+# ---- the area of the extension: states after a text-area resize, macro replay, the wrappers, PETSCII ---------------------------
+def light_tokens(emu, w, h):
+    return [t for t in tg.alphabet(emu, w, h) if b'9999' not in t[1]]
+
+def hexmacro(pid, body, flags=b'0'):
+    """ESC P pid;flags;1 !z <hex of body> ESC \\  (parse_hex_macro_sequence)"""
+    return E + b'P%d;' % pid + flags + b';1!z' + body.hex().upper().encode() + E + b'\\'
+
+def post_resize_stream(rng, emu, w, h):
+    """set-up (scrollback, margins, far cursor, insert mode) + one resize to a smaller / larger / extreme size + tokens of the whole alphabet"""
+    toks = light_tokens(emu, w, h)
+    setup = rng.choice([b'', b'\n' * (h + rng.choice([1, 7])), b'\n' * (h - 1) + b'A' * (w - 1)])
+    if rng.random() < 0.5: setup += E + b'[%d;%dr' % (rng.choice([1, 2, h // 2 + 1]), rng.choice([h, max(1, h - 1), h // 2 + 1]))
+    if rng.random() < 0.4: setup += E + b'[?69h' + E + b'[%d;%ds' % (rng.choice([1, 2, w // 2 + 1]), rng.choice([w, max(1, w - 1)]))
+    if rng.random() < 0.5: setup += E + b'[%d;%dH' % (rng.choice([1, h, h // 2 + 1]), rng.choice([1, w, w // 2 + 1]))
+    if rng.random() < 0.3: setup += E + b'[4h'
+    if rng.random() < 0.3: setup += E + b'7'
+    hh, ww = rng.choice([(1, 1), (1, w), (h, 1), (2, 2), (max(1, h // 2), max(1, w // 2)), (60, 132), (h + 5, w + 9), (0, 0), (3, 200)])
+    out = [setup, E + b'[8;%d;%dt' % (hh, ww)]; names = ['setup', 'RESIZE(%d;%d)' % (hh, ww)]
+    for _ in range(rng.choice([6, 12, 25])):
+        r = rng.random()
+        if r < 0.2: n, b = rng.choice([('print', bytes([rng.choice(b'AB \xdb')]) * rng.choice([1, 2, ww + 1 if 0 < ww < 140 else 3])), ('LF', b'\n' * rng.choice([1, 2, 5])), ('CR', b'\r')])
+        elif r < 0.25: n, b = rng.choice(tg.RESIZE)
+        elif r < 0.3: n, b = rng.choice([('DECRC', E + b'8'), ('RCP', E + b'[u'), ('DECSTR', E + b'[!p'), ('RIS', E + b'c')])
+        else: n, b = rng.choice(toks)
+        out.append(b); names.append(n)
+    return b''.join(out), names
+
+MACRO_BODIES = [b'AB\n', b'\x1b[8;3;4tXY\x1b[L\x1b[M', b'\x1b[2;3r\x1b[9B\x1bM\x1bM\x1bM', b'\x1b[4hQ\x1b[4l\x1b[3@\x1b[2P', b'\x1b[ @\x1b[ A\x1b[5b', b'\x1b[99C\x1b[8;1;1tZ\x1b[X',
+                b'\x1b[?69h\x1b[2;3s\x1b[ A', b'\x1bD\x1bE\x1b[1;1H\x1b[J', b'\x1bP9;0;0!zq\x1b\\', b'\x0c\x1b[!p', b'\x1b[1;2;3;4r\x1b[=r', b'\x1b[0;0r\x1b[M\x1b[L']
+def macro_stream(rng, emu, w, h):
+    """hex macros whose bodies resize / move / edit / define macros / invoke lower macros; invoked from the stream, from inside a DCS, twice, and (Avatar) by ^Y z n"""
+    toks = light_tokens(emu, w, h)
+    out = []; names = []
+    nm = rng.choice([1, 2, 3])
+    for i in range(1, nm + 1):
+        body = rng.choice(MACRO_BODIES)
+        if rng.random() < 0.4: body += b''.join(rng.choice(toks)[1] for _ in range(rng.choice([1, 3])))
+        if i > 1 and rng.random() < 0.6: body += E + b'[%d*z' % rng.randrange(1, i)          # a lower macro: bounded nesting
+        if rng.random() < 0.06: body += E + b'[%d*z' % i                                        # itself: the known class (both sides must say so)
+        rep = rng.random()
+        if rep < 0.2: out.append(E + b'P%d;0;1!z' % i + b'!%d;' % rng.choice([0, 2, 3]) + body.hex().upper().encode() + b';' + E + b'\\')
+        elif rep < 0.3: out.append(E + b'P%d;0;0!z' % i + bytes(c for c in body if c != 0x1b) + E + b'\\')       # text form
+        else: out.append(hexmacro(i, body, rng.choice([b'0', b'0', b'1'])))
+        names.append('DEF%d' % i)
+    for _ in range(rng.choice([2, 4, 7])):
+        r = rng.random(); k = rng.randrange(1, nm + 2)
+        if r < 0.45: out.append(E + b'[%d*z' % k); names.append('INV%d' % k)
+        elif r < 0.55: out.append(E + b'Pq' + E + b'[%d*zr' % k + E + b'\\'); names.append('INV-in-DCS%d' % k)
+        elif r < 0.65 and emu == 1: out.append(E + b'[%d*' % k + b'\x19z' + bytes([rng.choice([1, 2, 3])])); names.append('INV-avt-rep%d' % k)
+        elif r < 0.7: n, b = rng.choice(tg.RESIZE); out.append(b); names.append(n)
+        else: n, b = rng.choice(toks); out.append(b); names.append(n)
+    return b''.join(out), names
+
+def term_cases(ctx):
+    """per-character comparison (harness kind `term`) on exactly the newly proved area"""
+    meta = []
+    for _ in range(ctx.n(45, 500)):
+        emu = ctx.rng.choice(tg.ANSI_BASED)
+        w, h = ctx.rng.choice([(80, 25), (40, 24), (5, 3), (1, 1), (10, 4), (20, 60)])
+        b, names = post_resize_stream(ctx.rng, emu, w, h)
+        meta.append((emu, 0, w, h, b[:300], ['post-resize'] + names))
+    for _ in range(ctx.n(45, 500)):
+        emu = ctx.rng.choice(tg.ANSI_BASED)
+        w, h = ctx.rng.choice([(80, 25), (40, 24), (5, 3), (10, 4)])
+        b, names = macro_stream(ctx.rng, emu, w, h)
+        meta.append((emu, 0, w, h, b[:400], ['macro-replay'] + names))
+    for _ in range(ctx.n(60, 700)):
+        w, h = ctx.rng.choice([(40, 25), (40, 25), (80, 25), (5, 3), (1, 1), (10, 4), (132, 60)]) if ctx.rng.random() < 0.85 else (ctx.rng.randint(1, 132), ctx.rng.randint(1, 60))
+        meta.append((6, 0, w, h, tg.petscii_stream(ctx.rng, w, h, ctx.rng.choice([5, 20, 60, 150])), ['petscii']))
+    # directed: every PETSCII byte once after `reverse on`, and every byte as the second byte of a C128 escape
+    meta.append((6, 0, 40, 25, b''.join(bytes([0x12, c]) for c in range(256) if c not in (0x1b, 0x93)), ['petscii-reverse-all']))
+    meta.append((6, 0, 40, 25, b'AB\rCD\r' + b''.join(bytes([0x1b, c]) for c in range(256)), ['petscii-escape-all']))
+    meta.append((6, 0, 10, 4, b'\r' * 9 + b'\x8eAB\x0e\x8e\x8e\x93\x0e', ['petscii-shift']))
+    # directed: the known class through every wrapper (both sides must report the nesting overflow), a chain of depth 6 (both sides a state),
+    # a macro that resizes to 1 x 1 and then edits lines far outside the new screen
+    chain = b''.join(hexmacro(i, (b'<%d>' % i) + (E + b'[%d*z' % (i - 1) if i > 1 else b'\n')) for i in range(1, 7)) + E + b'[6*z'
+    far = b'\n' * 30 + E + b'[2;20r' + E + b'[79C' + hexmacro(1, E + b'[8;1;1t' + E + b'[L' + E + b'[M' + E + b'[3@' + E + b'[ @' + E + b'[ A' + b'A' + E + b'[3b' + E + b'[4hBC' + E + b'M' + E + b'E') + E + b'[1*z' + E + b'[1*z'
+    for emu in tg.ANSI_BASED:
+        meta.append((emu, 0, 80, 25, KNOWN_INPUTS[0][2], ['macro-replay', 'macro-self']))
+        meta.append((emu, 0, 80, 25, chain, ['macro-replay', 'macro-chain-6']))
+        meta.append((emu, 0, 80, 25, far, ['macro-replay', 'macro-resize-far']))
+    return meta
 
 LEDGER = [(0, 0, E + b']8;;' + E + b'\\', 'osc8-empty'), (0, 0, E + b']4;;rgb:00/00/00' + E + b'\\', 'osc4-noindex'), (0, 0, E + b'[0;0r' + E + b'[M', 'neg-margin-DL'),
           (0, 0, E + b'[0;0r' + E + b'[L', 'neg-margin-IL'), (0, 0, b'\x0c' + E + b'[ @', 'scroll-left-unallocated'), (0, 0, b'\x0c' + E + b'[ A', 'scroll-right-unallocated'),
@@ -190,10 +280,37 @@ def correspondence(ctx):
             dis.append({'case': c, 'impl': list(r) if r[0] != 'ok' else r[1], 'model': m, 'tokens': me[5][:20]})
         elif r[0] == 'ok' and (r[1][1] > 0 or r[1][3] or r[1][4]):
             nontriv.add(c)
-    return {'cases': len(cases), 'disagreements': dis, 'distinct_nontrivial': len(nontriv),
-            'distribution': {'outcome_classes': classes, 'model_errors': getattr(ctx, 'model_errors', [])[:2],
-                             'observation': 'n_actions n_errors first_error_index cx cy bw bh tw th nlines | panic | diverge'},
-            'samples': [cases[0][:300], cases[-1][:300]]}
+    merr = getattr(ctx, 'model_errors', [])[:2]
+    # the area of the extension: observation after EVERY character
+    tmeta = term_cases(ctx)
+    tcases = ['term %d %d %d %d %s' % (e, mu, w, h, tg.hx(b)) for e, mu, w, h, b, _ in tmeta]
+    texprs = [('run_term_pet %d %d %s' % (w, h, zl(b))) if e == 6 else ('run_term %d %d %d %d %s' % (e, mu, w, h, zl(b))) for e, mu, w, h, b, _ in tmeta]
+    timpl = ctx.impl(tcases, per_case_timeout=30)
+    tmodel = ctx.model(MODEL_IMPORTS, texprs, timeout=900)
+    area = {}
+    for c, r, m, me in zip(tcases, timpl, tmodel, tmeta):
+        if r[0] == 'panic' and 'library/std/src/thread' in r[1]:
+            continue
+        lab = me[5][0].split('-')[0] if me[0] == 6 else me[5][0]
+        area[lab] = area.get(lab, 0) + 1
+        cls = r[0] if r[0] != 'ok' else 'ok'
+        classes['percharacter-' + cls] = classes.get('percharacter-' + cls, 0) + 1
+        if r[0] == 'ok':
+            agree = (m == r[1])
+        elif r[0] == 'stackoverflow':
+            agree = bool(m) and m[-1:] == [-2]
+        else:
+            agree = False
+        if not agree:
+            k = next((i for i in range(min(len(r[1]), len(m))) if r[1][i] != m[i]), min(len(r[1]), len(m))) if (r[0] == 'ok' and m) else 0
+            dis.append({'case': c, 'first_difference_at_char': k // 18, 'impl': r[1][k - k % 18:k - k % 18 + 18] if r[0] == 'ok' else list(r),
+                        'model': None if m is None else m[k - k % 18:k - k % 18 + 18], 'tokens': me[5][:30]})
+        elif r[0] == 'ok' and len(r[1]) > 40:
+            nontriv.add(c)
+    return {'cases': len(cases) + len(tcases), 'disagreements': dis, 'distinct_nontrivial': len(nontriv),
+            'distribution': {'outcome_classes': classes, 'extension_area_streams': area, 'model_errors': (merr + getattr(ctx, 'model_errors', [])[:2])[:2],
+                             'observation': 'n_actions n_errors first_error_index cx cy bw bh tw th nlines | panic | diverge; extension area: the 18-tuple of C09 after every character'},
+            'samples': [cases[0][:300], cases[-1][:300], tcases[0][:300]]}
 
 # ---- search --------------------------------------------------------------------------------------------------------------
 _src_cache = {}
@@ -305,17 +422,19 @@ def replay(ctx, body):
             print('model:', m[0])
     return 0 if r[0] == 'ok' else 1
 
-LEVEL_TEXT = ('PARTIAL. Machine-checked (Coq, closed under the global context) on the models shared with C09: (a) c01_standalone: for ASCII, ATASCII, Viewdata and Mode 7 every stream of any '
-              'length on every screen 1..=132 x 1..=60 yields an action or an error value for every character (the run never panics or diverges) - full strength; '
-              '(b) c01_ansi_char_partial / c01_stream_partial: ansi::Parser::print_char at character level in EVERY EngineState (CSI incl. ? = ! < and intermediates, DCS incl. CTerm:Font '
-              'loading through C17\'s BitFont model, OSC, APS, macros, all seven music states): on a state satisfying the C09 invariant with an empty macro table one character yields an action '
-              'or an error value - no panic site is left (the two former known sites, stream-supplied font and non-scalar DECFRA fill character, are repaired in the merged tree); after any stream '
-              'without text-area resize that invariant holds (C09), which gives the stream form; c01_ansi_stream_partial: every ANSI stream runs through, or the character at which it stops was '
-              'processed after a resize or with a macro stored; (c) core_ops_never_panic: print_char, lf, erase, insert/remove line, scroll_right, limit_caret_pos never panic on the invariant. '
-              'NOT proved (stages C and S only): characters processed after a resize, macro replay (stored macros), Avatar/PCBoard/Ctrl-A/Renegade wrappers beyond their C09 invariant, PETSCII. '
-              'Nine fix: commits remove the panics of the ledger (OSC 8, OSC 4, margin validation, SL/SR, music index, music arithmetic, cursor-motion overflow; DECFRA fill character by C10, '
-              'BitFont loaders by C17); one class stays a known finding (unbounded macro recursion).')
-LEVEL_NOTE = ('Trusted: Coq kernel + vm_compute; hand models tied to the Rust code by per-stream outcome comparison (stage C) and, via C09, per-character state comparison; '
-              'the base64 decoder model (external crate) tied by stage C; worker classification of aborts/stack overflows/timeouts. Resource bounds (time, memory) are C03, not C01.')
-TECHNIQUE = ('Coq proof: no-panic lemmas for every res-valued operation under the C09 invariant, case analysis of every parser state, totality of the font loader model, induction over '
-             'streams (stand-alone emulations; ANSI up to the first resize / stored macro); differential outcome classes; crash search with signatures by enclosing function')
+LEVEL_TEXT = ('Machine-checked (Coq, closed under the global context) for ALL TEN emulations, streams of any length, screens 1..=132 x 1..=60: '
+              '(a) c01_standalone: ASCII, ATASCII, Viewdata, Mode 7 - every stream ends in a state (every character an action or an error value); '
+              '(b) c01_petscii: the same for PETSCII (Model/Petscii.v: print_char, handle_c128_escapes, handle_reverse_mode with the u8 overflow as an explicit site, update_shift_mode); '
+              '(c) c01_wrappers / c01_wrappers_no_panic: the ANSI parser and its Avatar, PCBoard, Ctrl-A and Renegade wrappers - every stream ends in a state or stops in the macro-nesting overflow, '
+              'and then the character at which it stops was processed with a macro stored; it NEVER panics, with no side condition on text-area resizes or stored macros: the proof runs on a weak invariant W '
+              '(sizes >= 1, origin mode never WithinMargins, margins 0 <= a <= b, tab stops >= 0, cursor coordinates >= 0) that survives CSI 8;h;w t and is kept by macro replay (induction on the nesting bound); '
+              '(d) c01_ansi_char: one character of ansi::Parser::print_char in EVERY EngineState, any macro table, any nesting bound, on any W state: action or error value on a W state; '
+              'macro_bound_is_only_a_bound: an outcome that is not the nesting overflow is the same for every larger bound (the bound of the model is not a semantic limit); c01_no_emulation_panics puts (a)-(c) into one statement; core_ops_never_panic and the earlier *_partial theorems are kept. '
+              'One class stays a known finding: unbounded macro recursion (stack overflow; model: Diverge beyond MACRO_FUEL = 32) - the theorems show it is the only failure left. '
+              'Nine fix: commits remove the panics of the ledger (OSC 8, OSC 4, margin validation, SL/SR, music index, music arithmetic, cursor-motion overflow; DECFRA fill character by C10, BitFont loaders by C17).')
+LEVEL_NOTE = ('Trusted: Coq kernel + vm_compute; hand models tied to the Rust code by per-stream outcome comparison and per-character state comparison (stage C; via C09 for resize-free streams, '
+              'in C01 for post-resize states, macro replay and PETSCII); the base64 decoder model (external crate) tied by stage C; worker classification of aborts/stack overflows/timeouts. '
+              'Row counters are unbounded in the model (2^31 rows are the resource domain of C03). Resource bounds (time, memory) are C03, not C01.')
+TECHNIQUE = ('Coq proof: a weak invariant W preserved by every operation of the terminal core and sufficient for every res-valued operation to return a state; case analysis of every parser state '
+             'with the macro invoker abstracted (astep_gen_np), induction on the nesting bound for macro replay, a separate pass showing the macro table stays empty except at ESC \\ (Avatar repeat), '
+             'totality of the font loader model, induction over streams; differential outcome classes and per-character observations; crash search with signatures by enclosing function')
